@@ -324,5 +324,14 @@ Definition n_contains (nr : nreg) (c : cfg) (text : string) (toks : list tok) : 
   let '(nr', x) := n_getattr nr c text toks in
   (nr', match x with UOk _ => UOk true | UErr KUndefined => UOk false | UErr k => UErr k end).
 
+(** * The symbol stored with a definition ([_get_symbol], read by the short "~" formats), observed
+    after [get_name s]: for a lazily registered prefix+unit name it is what [get_symbol] answered
+    when the name was registered *)
+Definition n_def_symbol (nr : nreg) (n : string) : ures string :=
+  match r_units (n_reg nr) !! n with Some d => UOk (u_symbol d) | None => UErr KOther end.
+Definition n_name_then_symbol (nr : nreg) (c : cfg) (cs : bool) (s : string) : nreg * ures string :=
+  let nr' := n_register nr c cs s in
+  (nr', match n_get_name nr c cs s with Ok n => n_def_symbol nr' n | Err e => UErr (ekind_of e) end).
+
 (** * Histories of lookups (for the history-independence statements) *)
 Definition run_history (r : reg) (hist : list string) : reg := fold_left register hist r.
